@@ -133,3 +133,10 @@ pub fn run_stable(eg: &mut EGraph, text: &str) -> Outcome {
 pub fn run_for_compare(eg: &mut EGraph, text: &str, threads: usize) -> Outcome {
     if threads <= 1 { run(eg, text) } else { run_stable(eg, text) }
 }
+
+/// Deterministic growth guard used by every generated-program monitor: a `run` is not
+/// started on a database that is already large (term-building rules multiply it per
+/// iteration). Depends only on the program, so differential runs truncate identically.
+pub fn skip_run_on_large_db(eg: &EGraph, text: &str) -> bool {
+    text.trim_start().starts_with("(run") && eg.num_tuples() > 600
+}
